@@ -375,7 +375,7 @@ def _circle_image_center(f, pole, p, q, c0):
     """centre of the image (under Moebius f with pole `pole`) of the line pq (c0 None) or circle centred c0 through p.
     Returns None if the image is a straight line."""
     if not np.isfinite(pole):
-        return None if c0 is None else None
+        return None
     if c0 is None:
         d = (q - p) / abs(q - p)
         w = (pole - p) / d
